@@ -480,7 +480,17 @@ class LineFault:
 def run_case(spec):
     import tdgl.solver.runner as R
 
+    spec0 = spec
     dev, why = zoo.try_build_device(spec["device"])
+    tries = 0
+    while dev is None and tries < 4:
+        # every combination of this enumeration matters: a geometry the mesher refuses is replaced by another draw of the same kind
+        tries += 1
+        old = spec["device"]
+        new = zoo.gen_device(np.random.default_rng(spec["seed"] + tries), n_terminals=len(old["terminals"]), probes=len(old["probes"] or []), size="tiny", smooth=0, gamma=1.0)
+        new["layer"]["lam"], new["layer"]["d"] = old["layer"]["lam"], old["layer"]["d"]
+        spec = dict(spec, device=new)
+        dev, why = zoo.try_build_device(new)
     if dev is None:
         return {"violations": [], "counters": {"refused_mesh": 1}, "classes": ["refused"], "nontrivial": False}
     spec = sim.resolve_auto_dt(spec, dev)
@@ -499,6 +509,18 @@ def run_case(spec):
     if spec["mode"] == "hooks":
         # baseline run without fault
         v0, c0 = one_run(spec, dev, None)
+        while any("exactly singular" in str(x["detail"].get("raised", "")) for x in v0) and tries < 6:
+            # SuperLU refuses this mesh's Poisson matrix: another draw of the same kind of device
+            tries += 1
+            old = spec["device"]
+            new = zoo.gen_device(np.random.default_rng(spec["seed"] + 100 + tries), n_terminals=len(old["terminals"]), probes=len(old["probes"] or []), size="tiny", smooth=0, gamma=1.0)
+            new["layer"]["lam"], new["layer"]["d"] = old["layer"]["lam"], old["layer"]["d"]
+            d2, _ = zoo.try_build_device(new)
+            if d2 is None:
+                continue
+            dev = d2
+            spec = sim.resolve_auto_dt(dict(spec0, device=new), dev)
+            v0, c0 = one_run(spec, dev, None)
         if any("exactly singular" in str(x["detail"].get("raised", "")) for x in v0):
             return {"violations": [], "counters": {"refused_mesh": 1}, "classes": ["refused"], "nontrivial": False}
         merge(v0, c0)
